@@ -691,6 +691,11 @@ func (sd *SpecAnalyser) compareSchema(location DifferenceLocation, schema1, sche
 		schema2, _ = sd.schemaFromRef(getRef(schema2), &sd.Definitions2)
 	}
 
+	if schema1 == nil || schema2 == nil {
+		// a reference that does not resolve to a definition of the document (e.g. a relative file)
+		return
+	}
+
 	sd.compareDescripton(location, schema1.Description, schema2.Description)
 
 	typeDiffs := sd.CompareProps(&schema1.SchemaProps, &schema2.SchemaProps)
